@@ -1,7 +1,7 @@
 /-
   Driver.C11 — the sequential request-queue model (Golib/Queue/Seq.lean) on lines.
 
-    Q  <cap> <op>;<op>;…            → <ret>[<ev>,<ev>…];…  | <items>/<cap>
+    Q  <cap> <op>;<op>;…            → <ret>[<ev>,<ev>…];…  | <items>/<cap>      (QF / DQF: the same with the repaired timed get)
     DQ <cap1> <cap2> <op>;…         → <ret>[<i>:<ev>,…];…  | <items1>/<cap1> <items2>/<cap2>
     T  <timeto> <polled>@<now>;…    → got <x> | timeout <now> | running      (timed get over a clock)
 
@@ -16,6 +16,7 @@
 -/
 import Golib.Queue.Seq
 import Golib.Queue.Timed
+import Golib.Queue.Fixed
 import Driver.Common
 
 open Drv Queue
@@ -88,6 +89,19 @@ def runDQ (d : DQ) : List DOp → List String → DQ × List String
     let s := dstep d op
     runDQ s.1 ops ((retStr s.2.1 ++ "[" ++ ",".intercalate (s.2.2.map (fun e => s!"{e.1}:{evStr e.2}")) ++ "]") :: acc)
 
+/-- the same with the repaired timed get (proposed/C11/fix-KF-nil-element-swallowed.diff) -/
+def runQF (q : Q) : List Op → List String → Q × List String
+  | [], acc => (q, acc.reverse)
+  | op :: ops, acc =>
+    let s := stepF q op
+    runQF s.1 ops ((retStr s.2.1 ++ "[" ++ ",".intercalate (s.2.2.map evStr) ++ "]") :: acc)
+
+def runDQF (d : DQ) : List DOp → List String → DQ × List String
+  | [], acc => (d, acc.reverse)
+  | op :: ops, acc =>
+    let s := dstepF d op
+    runDQF s.1 ops ((retStr s.2.1 ++ "[" ++ ",".intercalate (s.2.2.map (fun e => s!"{e.1}:{evStr e.2}")) ++ "]") :: acc)
+
 def parseOps {α : Type} (f : String → Option α) (s : String) : Option (List α) :=
   if s == "-" || s == "" then some [] else (s.splitOn ";").mapM f
 
@@ -111,6 +125,18 @@ def answer (line : String) : String :=
       let r := runQ ⟨[], c⟩ os []
       ";".intercalate r.2 ++ " | " ++ qShow r.1
     | _, _ => "bad-op"
+  | ["QF", cap, ops] =>
+    match parseInt cap, parseOps parseOp ops with
+    | some c, some os =>
+      let r := runQF ⟨[], c⟩ os []
+      ";".intercalate r.2 ++ " | " ++ qShow r.1
+    | _, _ => "bad-op"
+  | ["DQF", c1, c2, ops] =>
+    match parseInt c1, parseInt c2, parseOps parseDOp ops with
+    | some a, some b, some os =>
+      let r := runDQF ⟨⟨[], a⟩, ⟨[], b⟩⟩ os []
+      ";".intercalate r.2 ++ " | " ++ qShow r.1.q1 ++ " " ++ qShow r.1.q2
+    | _, _, _ => "bad-op"
   | ["DQ", c1, c2, ops] =>
     match parseInt c1, parseInt c2, parseOps parseDOp ops with
     | some a, some b, some os =>
